@@ -436,9 +436,13 @@ func (e *entryValueMap) tryExpungeLocked() (isExpunged bool) {
 }
 
 func (m *ValueMap) ToJSON() ([]byte, error) {
+	return m.toJSONRaw(map[*VMValue]bool{})
+}
+
+// toJSONRaw save 为当前序列化路径上的值，与 VMValue.ToJSONRaw 共用，用于检测循环引用
+func (m *ValueMap) toJSONRaw(save map[*VMValue]bool) ([]byte, error) {
 	var lst [][]byte
 	var err error
-	save := map[*VMValue]bool{}
 	m.Range(func(key string, value *VMValue) bool {
 		var jsonKey []byte
 		var jsonData []byte
